@@ -22,12 +22,15 @@
             Corrupt(f,i) one byte of message line i of file f is changed so that the decoded content
                          differs: the line is damaged.
    Byte-level enumeration (every truncation byte, every byte position x replacement value) is done
-   by the driver on the final log of each behaviour with the verdicts stated by TruncOK / CorruptOK.
+   by the driver on the final log of each behaviour with the verdicts stated at the end of this module.
 
    Named deviations: meta lines carry no CRC (TODO in the code): corruption inside a meta line is
    not generated. A changed byte that leaves the decoded bytes of a line identical (unused low
    bits of the last base64 character) is not a corruption of the message and may be read back
-   intact. Rotation while the head has a torn tail is not generated (the two read paths glue
+   intact. A changed newline of the very last line makes it a torn tail (silently dropped, like
+   a truncation). A tear that removes only the newline of a MARKER line is not generated (the
+   JSON decoder ignores trailing bytes: the glued line then reads as that marker and the glued
+   record is dropped silently; appends after a tear are outside the statement). Rotation while the head has a torn tail is not generated (the two read paths glue
    differently there). Markers are strictly increasing (the WAL's caller contract).           *)
 EXTENDS Integers, Sequences, FiniteSets, TLC, Json
 
@@ -103,12 +106,13 @@ WriteEnd(h) ==
   /\ SyncLine(End(h)) /\ lastH' = h /\ UNCHANGED nextId
   /\ Step([act |-> "WriteEnd", h |-> h], files', minIdx)
 
-\* Group.rotateFile: flush, fsync, rename head to .NNN, then ensureTotalSizeLimit removes the np
-\* oldest files (never the new head, at most 4)
+\* Group.rotateFile: flush, fsync, rename head to .NNN, then ensureTotalSizeLimit removes the
+\* oldest file when the total size limit is reached (np = 1), never the new head.
+\* (Removing several files in one rotation is not generated: see the C38 log entry in DESIGN.md.)
 Rotate(np) ==
   /\ Len(hist) < MaxLen /\ ~torn
   /\ HeadF \o buf # <<>>
-  /\ np \in 0..Min2(4, Len(files))
+  /\ np \in 0..Min2(1, Len(files))
   /\ Len(files) + 1 - np <= MaxFiles
   /\ LET all == Append([files EXCEPT ![Len(files)] = HeadF \o buf], <<>>)
          kept == SubSeq(all, np + 1, Len(all))
@@ -136,8 +140,9 @@ Crash(k, t) ==
      /\ written' = IF empty THEN Append(written, End(0)) ELSE written
      /\ hard' = (hard \/ k < Len(HeadF))
      /\ ncrash' = ncrash + 1
-     /\ UNCHANGED <<minIdx, nextId, lastH, ncorrupt, synced>>
-     /\ Step([act |-> "Crash", k |-> k, torn |-> t], fs2, minIdx)
+     /\ minIdx' = (IF Len(files) = 1 THEN 0 ELSE minIdx)   \* reopen renumbers a lone head as file 0
+     /\ UNCHANGED <<nextId, lastH, ncorrupt, synced>>
+     /\ Step([act |-> "Crash", k |-> k, torn |-> t], fs2, minIdx')
 
 \* one byte of an on-disk message line changes (decoded content differs)
 Corrupt(f, i) ==
@@ -150,7 +155,7 @@ Corrupt(f, i) ==
 
 Next == \/ Write \/ WriteSync
         \/ \E h \in 1..MaxH : WriteEnd(h)
-        \/ \E np \in 0..4 : Rotate(np)
+        \/ \E np \in 0..1 : Rotate(np)
         \/ \E k \in 0..(MaxMsgs + MaxH + 1), t \in BOOLEAN : Crash(k, t)
         \/ \E f \in 1..MaxFiles, i \in 1..(MaxMsgs + MaxH + 1) : Corrupt(f, i)
 
